@@ -840,9 +840,12 @@ esl_fgets(char **buf, int *n, FILE *fp)
 
   /* Simple case 3. We got a complete string, with \n,
    *                and don't need to extend the buffer.
+   *                (If the input has a NUL byte at the start of
+   *                the line, strlen() is 0: don't look at buf[-1].
+   *                We can't see past the NUL; call it a line.)
    */
   len = strlen(*buf);
-  if ((*buf)[len-1] == '\n') return eslOK;
+  if (len == 0 || (*buf)[len-1] == '\n') return eslOK;
 
   /* The case we're waiting for. We have an incomplete string,
    * and we have to extend the buffer one or more times. Make
@@ -856,7 +859,7 @@ esl_fgets(char **buf, int *n, FILE *fp)
     s = *buf + pos;
     if (fgets(s, 129, fp) == NULL) return eslOK;
     len = strlen(s);
-    if (s[len-1] == '\n') return eslOK;
+    if (len == 0 || s[len-1] == '\n') return eslOK;
     pos += 128;
   } 
   /*NOTREACHED*/
